@@ -83,9 +83,11 @@ class Journal:
         os.write(self.fd, (json.dumps(case) + '\n').encode())
 
     def begin_op(self, i):
+        self._open()
         os.write(self.fd, b'B%d\n' % i)
 
     def end_op(self, i):
+        self._open()
         os.write(self.fd, b'E%d\n' % i)
 
     def end_case(self):
@@ -282,7 +284,9 @@ def execute_case(engine, case, scratch, timeout=120.0):
         pass
 
     def go():
-        return engine.execute(case, Journal(jpath))
+        jr = Journal(jpath)
+        jr.begin_case(case)
+        return engine.execute(case, jr)
 
     kind, val = in_fork(go, (), timeout=timeout, journal_path=jpath)
     if kind == 'ok':
